@@ -986,3 +986,46 @@ Proof.
   rewrite zero_prefix_len_numeric by (apply distance_wf; auto).
   rewrite distance_length; congruence.
 Qed.
+
+(** * Remove is effective: after Remove(id) no peer with that id is left anywhere in the table *)
+
+Lemma has_remove_first id b : NoDup (map fst b) -> has id (remove_first id b) = false.
+Proof.
+  induction b as [|p r IH]; simpl; intro N; [reflexivity|].
+  inversion N as [|x l Hnot Hr]; subst.
+  destruct (id_eqb (fst p) id) eqn:E.
+  - apply id_eqb_eq in E. subst id. apply has_false. exact Hnot.
+  - simpl. rewrite E. simpl. apply IH. exact Hr.
+Qed.
+
+Lemma remove_effective t id :
+  valid t -> forall p, in_table (fst (remove t id)) p -> fst p <> id.
+Proof.
+  intros V. pose proof (remove_valid t id V) as V'.
+  apply (not_in_home_not_in_table _ id V').
+  unfold remove in *. rewrite (bi_remove t id (v_nonempty t V)) in *.
+  assert (Hi : home t id < length (t_buckets t)) by (apply home_lt, (v_nonempty t V)).
+  pose proof (get_bucket_nth_error t _ Hi) as E.
+  destruct (has id (get_bucket t (home t id))) eqn:Hh; simpl in *; [|exact Hh].
+  assert (Hhome : home (set_bucket t (home t id) (remove_first id (get_bucket t (home t id)))) id = home t id).
+  { unfold home, set_bucket; simpl. rewrite upd_length. reflexivity. }
+  rewrite Hhome.
+  assert (G : get_bucket (set_bucket t (home t id) (remove_first id (get_bucket t (home t id)))) (home t id)
+              = remove_first id (get_bucket t (home t id))).
+  { assert (L : home t id < length (t_buckets (set_bucket t (home t id) (remove_first id (get_bucket t (home t id)))))).
+    { unfold set_bucket; simpl. rewrite upd_length. exact Hi. }
+    pose proof (get_bucket_nth_error _ _ L) as E2.
+    unfold set_bucket in E2 at 1; simpl in E2. rewrite nth_error_upd in E2.
+    rewrite Nat.eqb_refl in E2. apply Nat.ltb_lt in Hi. rewrite Hi in E2.
+    injection E2 as E2. symmetry. exact E2. }
+  rewrite G. apply has_remove_first. exact (v_nodup t V _ _ E).
+Qed.
+
+Lemma remove_effective_reachable size local ops id t :
+  (1 <= size)%Z -> length local = KB_ID_LEN ->
+  exec (new_table size local) ops = Some t ->
+  forall p, in_table (fst (remove t id)) p -> fst p <> id.
+Proof.
+  intros Hs Hl E. destruct (exec_valid size local ops Hs Hl) as [t' [E' [V _]]].
+  rewrite E in E'. injection E' as <-. apply remove_effective. exact V.
+Qed.
